@@ -150,26 +150,27 @@ func (f *front) serve(c net.Conn) {
 	if err != nil {
 		return
 	}
-	first, err := m.ReadMsg()
-	if err != nil {
-		return
-	}
 	f.mu.Lock()
 	keyed := f.srv != nil
 	f.mu.Unlock()
-	if isPlain(first) {
-		if keyed {
-			f.mu.Lock()
-			f.plainLater++
-			f.mu.Unlock()
-			// a keyed client that starts over: serve the exchange anyway so that the run goes on
+	var first []byte
+	if !keyed {
+		first, err = m.ReadMsg()
+		if err != nil {
+			return
 		}
-		if err := f.exchange(m, first, keyed); err != nil {
+		if !isPlain(first) {
+			f.fail(errors.New("first frame of an unkeyed client is not plain"))
+			return
+		}
+		if err := f.exchange(m, first, false); err != nil {
 			f.fail(err)
 			return
 		}
 		first = nil
 	}
+	// a keyed client (reconnect) is handed to the reference server at once: whatever it writes - also a
+	// plain frame, should it start a key exchange again - is logged there
 	f.mu.Lock()
 	srv := f.srv
 	f.mu.Unlock()
